@@ -776,6 +776,17 @@ impl pyo3::FromPyObject<'_> for Release {
     }
 }
 
+#[cfg(feature = "chrono")]
+/// Parse the date of a Release file. Archives write the zone as "UTC"
+/// ("Sat, 24 Aug 2024 14:13:49 UTC"), which RFC 2822 does not know.
+fn parse_release_date(s: &str) -> Option<chrono::DateTime<chrono::FixedOffset>> {
+    let s = s.trim();
+    match s.strip_suffix(" UTC") {
+        Some(rest) => chrono::DateTime::parse_from_rfc2822(&format!("{} +0000", rest)).ok(),
+        None => chrono::DateTime::parse_from_rfc2822(s).ok(),
+    }
+}
+
 impl Release {
     /// Create a new release
     pub fn new(paragraph: deb822_lossless::Paragraph) -> Self {
@@ -842,7 +853,7 @@ impl Release {
         self.0
             .get("Date")
             .as_ref()
-            .map(|s| chrono::DateTime::parse_from_rfc2822(s).unwrap())
+            .and_then(|s| parse_release_date(s))
     }
 
     #[cfg(feature = "chrono")]
@@ -857,7 +868,7 @@ impl Release {
         self.0
             .get("Valid-Until")
             .as_ref()
-            .map(|s| chrono::DateTime::parse_from_rfc2822(s).unwrap())
+            .and_then(|s| parse_release_date(s))
     }
 
     #[cfg(feature = "chrono")]
